@@ -123,6 +123,27 @@ func TestReach(t *testing.T) {
 		}
 		one(lr.paths, 1, "<all paths at once>")
 		one(lr.paths, 3, "<all paths at once>")
+		if rec.Thorough() {
+			// every supported depth, many invalid strings per (path, depth); random subsets of paths at once
+			for _, p := range lr.paths {
+				for d := 1; d <= 10; d++ {
+					for k := 0; k < 12; k++ {
+						one([]gen.LPath{p}, d, p.String())
+					}
+				}
+			}
+			for k := 0; k < 400; k++ {
+				var sub []gen.LPath
+				for _, p := range lr.paths {
+					if rng.Intn(3) == 0 {
+						sub = append(sub, p)
+					}
+				}
+				if len(sub) > 0 {
+					one(sub, 1+rng.Intn(10), fmt.Sprintf("<%d paths at once>", len(sub)))
+				}
+			}
+		}
 		out.End(rec.Line{Case: name, Viol: dedupeV(viol), Counts: counts, Classes: classes,
 			Sample: map[string]any{"root": lr.String(), "first_path": lr.paths[0].String(), "paths": len(lr.paths)}})
 	}
@@ -159,7 +180,7 @@ func TestRepair(t *testing.T) {
 	sup := supported()
 	n := 4000
 	if rec.Thorough() {
-		n = 400000
+		n = 8000000
 	}
 	idx := 0
 	for k := 0; k < n; k += 50 {
@@ -347,7 +368,7 @@ func TestRepair(t *testing.T) {
 	// current-schema random messages (fields unknown to the legacy schema included)
 	m := 2000
 	if rec.Thorough() {
-		m = 200000
+		m = 4000000
 	}
 	var all []protoreflect.MessageDescriptor
 	for _, mm := range gen.AllMethods() {
